@@ -295,7 +295,20 @@ def r_boundary(pid):
                         # not follow (a generator, another class): undecided, not a violation
                         rowat = {a for a in _attrs_of(link[0]) + _attrs_of(link[2]) if a not in ("self",)}
                         related = [c for c in ast.walk(f.node) if isinstance(c, ast.Compare) and rowat & set(_attrs_of(c))] if f is not None else []
-                        if f is not None and not related:
+                        # values that reach the function through a helper written after the review (a generator of candidates, ...)
+                        # cannot be followed: then nothing is decided
+                        from ..inline import _known
+                        indirect = False
+                        if f is not None:
+                            for c_ in ast.walk(f.node):
+                                if isinstance(c_, ast.Call):
+                                    nm = c_.func.attr if isinstance(c_.func, ast.Attribute) and isinstance(c_.func.value, ast.Name) and c_.func.value.id in ("self", "cls") else c_.func.id if isinstance(c_.func, ast.Name) else None
+                                    if nm is None:
+                                        continue
+                                    cand = [g for g in m.functions.values() if g.name == nm and (g.cls is f.cls or g.cls is None)]
+                                    if cand and not any((g.mod.rel, g.dqual) in _known() for g in cand):
+                                        indirect = True
+                        if f is not None and (not related or indirect):
                             out.inst(key + "::%d" % k, {"function": r["function"], "expect": linktxt, "status": "not found, no related comparison", "reason": r["reason"]}, nontrivial=False)
                             out.undecide(r["file"], r["function"], "boundary %s" % linktxt, "no comparison of the function mentions any quantity of the row: the test is made where this rule does not follow")
                             continue
